@@ -82,11 +82,28 @@ Proof.
   now apply sat_ret.
 Qed.
 
+(** the optional fields and the conditional [reserve]s are stepped over without a case split
+    (2^7 paths otherwise), and the size test is not kept: nothing after it depends on it *)
 Lemma dec_trun_sat m : leaf_sat (dec_trun m).
 Proof.
-  leaf_start. unfold dec_trun. sat_go.
-  all: (eapply sat_rd_n_bind with (I := fun _ => True);
-        [exact I | intros p' _; now apply sat_trun_rd_row | intros rows p' _; sat_go; sat_arith]).
+  leaf_start. unfold dec_trun. do 3 sat_step.
+  apply sat_bind_any; [destruct (trun_has trun_FLAG_DATA_OFFSET flags); sat_go; exact I|].
+  intros data_offset p1.
+  apply sat_bind_any; [destruct (trun_has trun_FLAG_FIRST_SAMPLE_FLAGS flags); sat_go; exact I|].
+  intros first_sample_flags p2.
+  match goal with |- sat _ _ (if ?b then _ else _) _ => destruct b; [apply sat_throw|] end.
+  apply sat_bind_any; [destruct (trun_has trun_FLAG_SAMPLE_DURATION flags); sat_go; exact I|].
+  intros _ p3.
+  apply sat_bind_any; [destruct (trun_has trun_FLAG_SAMPLE_SIZE flags); sat_go; exact I|].
+  intros _ p4.
+  apply sat_bind_any; [destruct (trun_has trun_FLAG_SAMPLE_FLAGS flags); sat_go; exact I|].
+  intros _ p5.
+  apply sat_bind_any; [destruct (trun_has trun_FLAG_SAMPLE_CTS flags); sat_go; exact I|].
+  intros _ p6.
+  apply sat_bind_any; [|intros rows p7].
+  - apply sat_rd_n_inv with (I := fun _ => True); [exact I|].
+    intros p' _. now apply sat_trun_rd_row.
+  - clear - Hd Hl H8 Hp Hs. sat_go; sat_arith.
 Qed.
 Definition dec_trun_safe m : leaf_safe (dec_trun m) := leaf_safe_of_sat _ (dec_trun_sat m).
 
